@@ -295,7 +295,7 @@ class Ctx:
         """A concrete failing input on the real code. Matched against known findings by signature."""
         known = self.load_known()
         for k in known.get("findings", []):
-            if (k["property"] == self.prop or (self.prop == "ENG" and (signature.startswith(k["property"] + ":") or k["property"] in ("C15",)))) and k["signature"] == signature:
+            if (k["property"] == self.prop or (self.prop in ("ENG", "AOFALL") and (signature.startswith(k["property"] + ":") or k["property"] in ("C15",)))) and k["signature"] == signature:
                 if signature not in [x["signature"] for x in self.known]:
                     self.known.append({"signature": signature, "what": k.get("what", what)})
                 return False
@@ -313,7 +313,7 @@ class Ctx:
         lines = []
         seen_sigs = {k["signature"] for k in self.known}
         for k in self.load_known().get("findings", []):
-            if k["property"] == self.prop:
+            if k["property"] == self.prop or (self.prop == "AOFALL" and k["property"] in ("C07", "C08", "C16")):
                 tag = "reproduced in this run" if k["signature"] in seen_sigs else "not reproduced in this run"
                 lines.append(f"KNOWN-FINDING: property={self.prop} [{k['signature']}] {k.get('what', '')} ({tag})")
         rc = 0
